@@ -301,7 +301,6 @@ impl<'p> CoroutinePool<'p> {
             return;
         }
         _ = self.no_waits.insert(task_id);
-        _ = CANCEL_TASKS.remove(&task_id);
     }
 
     /// Use the given `task_id` to obtain task results, and if no results are found,
